@@ -518,7 +518,7 @@ fn main() {
     sm.extra.insert("max_peak_rss_growth_kb".into(), json!(cx.max_alloc_kb));
     sm.extra.insert("peak_rss_probe_available".into(), json!(cx.hwm_ok));
     sm.extra.insert("header_cases_sampled_from_enumeration".into(), json!(sampled));
-    sm.extra.insert("not_covered".into(), json!("no RLIMIT_AS (std only): allocation is observed through VmHWM growth per load and wall time per load; a 4 GiB length prefix is not tried at full size (the 256 MiB instance shows the mechanism); stack overflow on deeply nested input is not provoked beyond what the substitutions produce"));
+    sm.extra.insert("not_covered".into(), json!("no RLIMIT_AS (std only): allocation is observed through VmHWM growth per load and wall time per load; the announced-length probe uses 256 MiB, not 4 GiB; stack overflow on deeply nested input is not provoked beyond what the substitutions produce (rmp-serde limits depth to 1024)"));
     cs.finish();
     sm.write(&a.out, &cs);
 }
